@@ -17,7 +17,9 @@ SHARDS = {"quick": 16, "thorough": 16}
 RULE = ("Hypothesis draws data sets whose static tensor is a random positive-definite tensor of one of nine systems, with the "
         "nine orthotropic columns always present and a drawn subset of the others (or a sufficient subset + filling), cell mass "
         "5-1500 g/mol; every (T,V) grid point with a positive-definite adiabatic tensor is compared; non-trivial = non-cubic "
-        "tensor (c13!=c23 or c44!=c55) with a non-zero non-orthotropic component; distinct by the drawn spec")
+        "tensor (c13!=c23 or c44!=c55) with a non-zero non-orthotropic component, or a softened case: a constant shift of static columns (two "
+        "probe runs, the total is affine in the table) puts one grid point next to a stability limit - a shear constant of 1e-7..1e-4 of "
+        "the stiff ones (condition number up to 1e7) or a bulk instability between the isothermal and the adiabatic tensor; distinct by the drawn spec")
 ASSUMPTIONS = [
     "CODATA 2018 constants typed in (N_A, Bohr radius, Rydberg); tolerance 1e-7 relative covers pint's revision",
     "absent s_ij attributes mean zero compliance",
@@ -35,7 +37,89 @@ def cases(draw):
         s["system"] = draw(st.sampled_from(["triclinic", "monoclinic"]))
         s["apply_system"] = False
         s["keys_mode"] = "ortho9+sparse"
+    # positive definite but close to a stability limit at one grid point: a shear constant of 1e-7..1e-4 of the stiff ones
+    # (condition number up to 1e7), or a bulk instability placed between the isothermal and the adiabatic tensor
+    s["soften"] = draw(st.sampled_from([None, None, None, "shear", "dilatational"]))
+    s["soften_at"] = [draw(st.floats(0.0, 1.0)), draw(st.floats(0.0, 1.0))]
+    s["soften_eps"] = draw(st.sampled_from([1e-7, 1e-6, 3e-5, 1e-4]))
+    s["soften_key"] = draw(st.sampled_from([4, 5, 6]))
+    if s["soften"]:
+        s["system"] = draw(st.sampled_from(["orthorhombic", "hexagonal", "cubic"]))
+        s["apply_system"] = False
+        s["keys_mode"] = "ortho9+"
     return s
+
+
+def _tensors(ds, qs):
+    import cij.core.calculator as cc
+    with Workdir() as wd, warnings.catch_warnings(), np.errstate(all="ignore"):
+        warnings.simplefilter("ignore")
+        path, cfg = materialise(ds, wd, qs)
+        calc = cc.Calculator(path)
+        adi = {tuple(k.voigt): np.array(v, dtype=float) for k, v in calc.volume_base.modulus_adiabatic.items()}
+        iso = {tuple(k.voigt): np.array(v, dtype=float) for k, v in calc.volume_base.modulus_isothermal.items()}
+        return adi, iso, np.array(calc.t_array, dtype=float)
+
+
+def soften(s, ds, qs):
+    """Shift static columns by a constant so that the tensor at one grid point sits next to a stability limit.  The
+    total modulus is affine in the tabulated values, so two probe runs determine the shift.  Returns a class tag or None."""
+    from ..reftensor import mandel
+    LONG = [(1, 1), (2, 2), (3, 3), (1, 2), (1, 3), (2, 3)]
+    try:
+        adi, iso, T = _tensors(ds, qs)
+    except Exception:
+        return None
+    nt, ntv = adi[(1, 1)].shape
+    it = int(round(s["soften_at"][0] * (nt - 1)))
+    iv = int(round(s["soften_at"][1] * (ntv - 1)))
+    if s["soften"] == "dilatational" and T[it] == 0:
+        it = nt - 1
+    if not all(np.isfinite(v[it, iv]) for v in list(adi.values()) + list(iso.values())):
+        return None
+    pt = lambda d: mandel(tensor_from_keys({k: v[it:it + 1, iv:iv + 1] for k, v in d.items()}, shape=(1, 1)))[0, 0]
+    MS, MT = pt(adi), pt(iso)
+    if np.min(np.linalg.eigvalsh(MS)) <= 0 or np.min(np.linalg.eigvalsh(MT)) <= 0:
+        return None
+    cmax = float(np.max(np.abs(MS)))
+    if s["soften"] == "shear":
+        k = (s["soften_key"], s["soften_key"])
+        cols = [k]
+        delta = adi[k][it, iv] - s["soften_eps"] * cmax              # a.u.; total = a + b*shift with b ~ 1
+        probe = lambda a, i: a[k][it, iv]
+    else:
+        cols = LONG
+        J = np.zeros((6, 6))
+        J[:3, :3] = 1.0
+        f = lambda M, d: float(np.min(np.linalg.eigvalsh(M - d * J)))
+        lo, hi = 0.0, 3.0 * cmax
+        for _ in range(200):                                          # shift at which lambda_min(S) = -lambda_min(T)
+            mid = 0.5 * (lo + hi)
+            if f(MS, mid) + f(MT, mid) > 0:
+                lo = mid
+            else:
+                hi = mid
+        delta = 0.5 * (lo + hi)
+        if not (f(MS, delta) > 0 > f(MT, delta)):
+            return None
+        probe = lambda a, i: a[(1, 2)][it, iv]
+    base = ds.static_full.copy()
+    idx = [KEYS21.index(k) for k in cols]
+    x0 = probe(adi, iso)
+    ds.static_full = base.copy()
+    ds.static_full[:, idx] -= delta * refphys.AU_TO_GPA
+    try:
+        adi1, iso1, _ = _tensors(ds, qs)
+    except Exception:
+        ds.static_full = base
+        return None
+    b = (x0 - probe(adi1, iso1)) / delta
+    if not (0.5 < b < 2.0):
+        ds.static_full = base
+        return None
+    ds.static_full = base.copy()
+    ds.static_full[:, idx] -= delta / b * refphys.AU_TO_GPA
+    return "soften-" + s["soften"]
 
 
 def oracle(ctx, s, ds, qs, case):
@@ -57,6 +141,7 @@ def oracle(ctx, s, ds, qs, case):
         except (AttributeError, ValueError):
             pass
         adi = {tuple(k.voigt): np.array(v, dtype=float) for k, v in vb.modulus_adiabatic.items()}
+        iso_obs = {tuple(k.voigt): np.array(v, dtype=float) for k, v in vb.modulus_isothermal.items()}
         V = np.array(calc.v_array, dtype=float)
         names = {"KV": "bulk_modulus_voigt", "KR": "bulk_modulus_reuss", "K": "bulk_modulus_voigt_reuss_hill",
                  "GV": "shear_modulus_voigt", "GR": "shear_modulus_reuss", "G": "shear_modulus_voigt_reuss_hill"}
@@ -135,28 +220,41 @@ def oracle(ctx, s, ds, qs, case):
     keys = sorted(adi)
     noncubic = bool(np.any(np.abs(adi[(1, 3)] - adi[(2, 3)])[pd] > 1e-9) or np.any(np.abs(adi[(4, 4)] - adi[(5, 5)])[pd] > 1e-9))
     nonortho = any(k not in ORTHO and np.any(np.abs(adi[k][pd]) > 1e-9) for k in keys)
-    return {"points": int(pd.sum()), "noncubic": noncubic, "nonortho": nonortho, "keys": keys}
+    from ..reftensor import mandel
+    ev = np.linalg.eigvalsh(mandel(C))
+    cond_max = float(np.max((ev[..., -1] / ev[..., 0])[pd]))
+    with np.errstate(all="ignore"):
+        Ct = tensor_from_keys({k: np.where(np.isfinite(v), v, 0.0) for k, v in iso_obs.items()}, shape=(nt, ntv))
+        band = int(np.sum(pd & ~is_positive_definite(Ct)))
+    return {"points": int(pd.sum()), "noncubic": noncubic, "nonortho": nonortho, "keys": keys, "cond_max": cond_max, "band": band}
 
 
 def build(s):
     ds = Dataset(s)
     r = place_pressures(ds)
-    return ds, (r[0] if r else None)
+    qs = r[0] if r else None
+    if qs is not None and s.get("soften"):
+        s["_softened"] = soften(s, ds, qs)
+    return ds, qs
 
 
 def sub_vrh(ctx):
     def body(s):
+        s = dict(s)
         ds, qs = build(s)
         if qs is None:
             ctx.stats.skip("unusable-dataset")
             return
+        tag = s.pop("_softened", None)
         info = oracle(ctx, s, ds, qs, s)
         if info is None:
             ctx.stats.skip("no-positive-definite-point")
             return
-        ctx.case(s, info["noncubic"] and info["nonortho"],
+        ctx.case(s, (info["noncubic"] and info["nonortho"]) or info["cond_max"] > 1e5 or info["band"] > 0,
                  classes=["system-" + s["system"], "fill" if s["apply_system"] else "no-fill", "touched-first-" + s.get("touch_first", "nothing"),
-                          "noncubic" if info["noncubic"] else "cubic-like", "nonorthotropic" if info["nonortho"] else "orthotropic"])
+                          "noncubic" if info["noncubic"] else "cubic-like", "nonorthotropic" if info["nonortho"] else "orthotropic",
+                          "condition>1e5" if info["cond_max"] > 1e5 else "condition<=1e5",
+                          "adiabatic-PD/isothermal-not-PD-points" if info["band"] > 0 else "no-such-band"] + ([tag] if tag else []))
 
     ctx.run_given(body, cases(), max_examples=ctx.n(160, 5000), shrink=not ctx.quick)
 
@@ -166,7 +264,8 @@ def subchecks(ctx):
 
 
 def replay(ctx, payload):
-    s = payload["case"]
+    s = dict(payload["case"])
     ds, qs = build(s)
+    s.pop("_softened", None)
     if qs is not None:
         oracle(ctx, s, ds, qs, s)
